@@ -244,7 +244,10 @@ def run(tier, seed):
         shapes = []
     for name, status, detail in shapes:
         chk.count('SHAPE', status, 0.0, name)
-        if status == 'failed':
+        if status == 'failed' and not nat.get('bad'):
+            chk.undecide('%s -- the source no longer has the shape this obligation was written for and the bounded run found no failing input: '
+                         'the contract must be re-derived (%s)' % (name, str(detail)[:200]))
+        elif status == 'failed':
             chk.violation(name, {'solver': 'syntactic / dataflow obligation on the enumerated paths of the real loop body; concrete failing '
                                            'input from the bounded native run', 'witness': detail, 'native_witness': nat.get('bad', [])[:3]},
                           bool(nat.get('bad')))
